@@ -62,6 +62,8 @@ class Endpoint:
         self.up = True
         self.lost_at = None
         self.peer_closed = False
+        self.dac = False
+        self.late = False
         self.counts = dict(close=0, ping=0, data=0, pong=0)
         self.parse_pos = 0
         self.hs_done = False
@@ -78,6 +80,10 @@ class Endpoint:
             op = f["hdr"][0] & 0x0F
             k = {8: "close", 9: "ping", 10: "pong"}.get(op, "data")
             self.counts[k] += 1
+            if k == "data" and self.counts["close"] > 0:
+                self.dac = True                      # a data frame after a close frame in the byte stream
+            if any(e[0] == "onClose" for e in self.log):
+                self.late = True                     # something written after the close notification
             if op == 8:
                 self.last_cf = list(f["payload"])
 
@@ -96,9 +102,10 @@ class Endpoint:
                     tOpen=due_of(p.openHandshakeTimeoutCall), tClose=due_of(p.closeHandshakeTimeoutCall),
                     tDrop=due_of(getattr(p, "serverConnectionDropTimeoutCall", None)),
                     tPs=due_of(p.autoPingPendingCall), tPt=due_of(p.autoPingTimeoutCall),
-                    pend=p.autoPingPending is not None)
+                    pend=p.autoPingPending is not None, dac=self.dac, late=self.late)
 
     def ev(self, name, **kw):
+        fw.pump()                                    # flush the send queue (10 microsecond steps) within the event
         e = dict(ev=name, **kw)
         self.last_cf = []
         e["obs"] = self.obs()
@@ -147,6 +154,17 @@ class Endpoint:
             except Exception as e:  # noqa
                 self.log.append(("api-exc", type(e).__name__))
             self.ev("lclose", code=code)
+        elif name == "lburst":
+            try:
+                p.sendMessage(b"one", sync=True)
+                p.sendMessage(b"two", sync=True)
+            except Exception:  # noqa
+                pass
+            try:
+                p.sendClose()
+            except Exception as e:  # noqa
+                self.log.append(("api-exc", type(e).__name__))
+            self.ev("lburst")
         elif name == "lsend":
             api = rng.choice(["msg", "prepared", "stream", "ping"])
             exc = ""
@@ -231,6 +249,8 @@ def scenario(rng, profile):
             choices += ["adv"] * 4
         if st != "CONNECTING":
             choices += ["lclose", "lsend"]
+            if st == "OPEN" and rng.random() < 0.5:
+                choices += ["lburst"]
         if ep.up:
             choices += ["lost"]
             if st in ("OPEN", "CLOSING") or (st == "CLOSED" and rng.random() < 0.3 and opened):
